@@ -403,7 +403,9 @@ def block_diagonalize(
 
             if isinstance(result, sympy.Matrix):
                 return result.applyfunc(
-                    lambda x: NumberOrderedForm.from_expr(x, operators)
+                    lambda x: NumberOrderedForm.from_expr(
+                        x, _with_extra_operators(operators, x)
+                    )
                 )
 
         H = BlockSeries(
@@ -869,6 +871,19 @@ def operator_to_BlockSeries(
     )
 
     return op
+
+
+def _with_extra_operators(operators, expr):
+    """Add the operators of `expr` that are absent from `operators`, keeping the order."""
+    extra = set(find_operators(sympy.sympify(expr))) - set(operators)
+    if not extra:
+        return operators
+    return tuple(
+        sorted(
+            set(operators) | extra,
+            key=lambda op: (generator_types.index(type(op)), str(op.name)),
+        )
+    )
 
 
 ### Different formats and algorithms of solving Sylvester equation.
